@@ -240,3 +240,61 @@ Definition c04_ok_unfixed (c : c04case) : bool :=
   let cf := {| max_entries := size; choose := fun _ _ => 0 |} in
   list_eqb (list_eqb Nat.eqb) (run_history false cf s (map of_cq hist) fresh) obs.
 Definition c04_mismatches_unfixed (cs : list c04case) : list N := bad_indexes c04_ok_unfixed cs.
+
+(** ---- concurrency at loop-iteration granularity ------------------------------------------------ *)
+(** The document loop of one search while OTHER searches run on the same loaded shard: before each of its
+    iterations the environment transforms the shared heap ([env i h]: any number of steps of any number of
+    other searches — tree builds, which allocate nodes, and prepare calls on their own trees). *)
+Fixpoint doc_loop_env (env : nat -> heap -> heap) (fuel n : nat) (t : mt) (lo : nat) (h : heap) (acc : list nat)
+  : list nat * heap :=
+  match fuel with
+  | O => (acc, h)
+  | S f =>
+      let h0 := env f h in
+      let nd0 := next_doc n h0 t in
+      let nd := if Nat.ltb nd0 lo then lo else nd0 in
+      if Nat.leb n nd then (acc, h0)
+      else
+        let h' := prepare h0 t nd in
+        doc_loop_env env f n t (S nd) h' (if matches t nd then acc ++ [nd] else acc)
+  end.
+
+(** two searches on one shard, interleaved by a schedule (true = the first search makes its next loop
+    iteration, false = the second); both trees are built first (cache accesses are serialised by the cache's
+    mutex; a build is atomic here), a search whose loop has ended ignores its turns; after the schedule both
+    loops run to completion. *)
+Record thread := { th_tree : mt; th_lo : nat; th_acc : list nat; th_done : bool }.
+
+Definition th_step (n : nat) (th : thread) (h : heap) : thread * heap :=
+  if th_done th then (th, h)
+  else
+    let nd0 := next_doc n h (th_tree th) in
+    let nd := if Nat.ltb nd0 (th_lo th) then th_lo th else nd0 in
+    if Nat.leb n nd then ({| th_tree := th_tree th; th_lo := th_lo th; th_acc := th_acc th; th_done := true |}, h)
+    else
+      ({| th_tree := th_tree th; th_lo := S nd;
+          th_acc := if matches (th_tree th) nd then th_acc th ++ [nd] else th_acc th; th_done := false |},
+       prepare h (th_tree th) nd).
+
+Fixpoint th_run (fuel n : nat) (th : thread) (h : heap) : thread * heap :=
+  match fuel with
+  | O => (th, h)
+  | S f => let '(th', h') := th_step n th h in th_run f n th' h'
+  end.
+
+Fixpoint par_run (n : nat) (sched : list bool) (a b : thread) (h : heap) : thread * thread * heap :=
+  match sched with
+  | [] => (a, b, h)
+  | true :: r => let '(a', h') := th_step n a h in par_run n r a' b h'
+  | false :: r => let '(b', h') := th_step n b h in par_run n r a b' h'
+  end.
+
+Definition mk_thread (t : mt) : thread := {| th_tree := t; th_lo := 0; th_acc := []; th_done := false |}.
+
+Definition par_search (cf : config) (s : shard) (qa qb : Q) (sched : list bool) (st : state) : list nat * list nat :=
+  let '(ta, st1) := build true cf s (simp s qa) st in
+  let '(tb, st2) := build true cf s (simp s qb) st1 in
+  let '(a, b, h) := par_run (ndocs s) sched (mk_thread ta) (mk_thread tb) (st_heap st2) in
+  let '(a', h1) := th_run (S (ndocs s)) (ndocs s) a h in
+  let '(b', _) := th_run (S (ndocs s)) (ndocs s) b h1 in
+  (th_acc a', th_acc b').
